@@ -264,14 +264,21 @@ class ExecBase:
                                 patterns=[has(ver, d.t, kk)]))
         return V(("seq", d.kind[1]), K)
 
-    def dict_store(self, st, d, k, v):
+    def materialize_dict(self, st, lit, kind):
+        """a dict literal passed where a symbolic dictionary is expected: a fresh dictionary holding exactly the literal's entries"""
+        d = self.empty_dict(st, kind)
+        for k, v in lit.items:
+            self.dict_store(st, d, k, v, local=True)
+        return d
+
+    def dict_store(self, st, d, k, v, local=False):
         """d[k] = v : the (has, val) functions of d's family change at (d, k) only; every other dictionary family is unchanged"""
         w = self.w
         has, val = self.dict_fns(d.kind)
         kt = self.dict_key(d, k)
         vt = self.coerce(v, d.kind[2]).t
         vo = st.version("dict")
-        if self.contract is not None and not self.discovery and "dict" not in self.contract.modifies and "*" not in self.contract.modifies:
+        if not local and self.contract is not None and not self.discovery and "dict" not in self.contract.modifies and "*" not in self.contract.modifies:
             self.oblige("frame", st, z3.BoolVal(False), "dictionary store, outside the function's modifies", name="frame:dict")
         if self.discovery:
             self.discovered.add(("ghost", "dict"))
@@ -295,8 +302,9 @@ class ExecBase:
         d = self.allocate_raw(st, "dict")
         has, _ = self.dict_fns(kind)
         k = z3.Const(w.fresh_name("k"), w.sort_of(kind[1]))
-        v = z3.Int(w.fresh_name("dv"))
-        st.assume(z3.ForAll([v, k], z3.Not(has(v, d, k)), patterns=[has(v, d, k)]))
+        # empty NOW (at the current dictionary version): later stores into it create later versions
+        v = st.version("dict")
+        st.assume(z3.ForAll([k], z3.Not(has(v, d, k)), patterns=[has(v, d, k)]))
         return V(kind, d)
 
     def allocate_raw(self, st, hint):
